@@ -36,6 +36,8 @@ def legal(P, S, O):
     for i in range(n):
         # both sides are the environment's own float32 numbers: the comparison is exact
         L[i] = (not bool(S["packed_items"][i])) and bool(S["weights"][i] <= rem)
+        if not bool(S["packed_items"][i]) and abs(float(S["weights"][i]) - float(rem)) <= 4e-7 * max(1.0, float(rem)):
+            P.hit("item_weight_equals_remaining_budget_up_to_roundoff")
     return L
 
 
